@@ -14,6 +14,7 @@ pub open spec fn refines(a: Seq<u64>, b: Seq<u64>) -> bool {
     &&& forall|y: A5Cell| valid(y) && max_res_le(b, y.resolution as int) ==> (covers(a, y) <==> covers(b, y))
     &&& antichain(b) ==> antichain(a)
     &&& ordered(b) ==> ordered(a)
+    &&& sorted_scan(b) ==> sorted_scan(a)
 }
 
 pub proof fn lemma_refines_refl(a: Seq<u64>)
@@ -120,6 +121,7 @@ pub proof fn lemma_comb_merge(done: Seq<u64>, cur: Seq<u64>, i: int, cell: u64, 
     let c1 = comb(done, cur, i);
     let c2 = comb(done.push(parent), cur, i + k);
     lemma_merge_ordered(cur, done, i, k, parent, p);
+    lemma_merge_sorted(cur, done, i, k, parent, p);
     assert(refines(c2, c1)) by { reveal(refines); }
     lemma_refines_trans(c2, c1, cur);
 }
@@ -133,6 +135,7 @@ pub proof fn lemma_compact_final(cells: Seq<u64>, init: Seq<u64>, out: Seq<u64>)
         forall|y: A5Cell| valid(y) && max_res_le(cells, y.resolution as int) ==> (covers(out, y) <==> covers(cells, y)),
         antichain_set(cells) ==> antichain(out) && out.no_duplicates(),
         ordered(init) ==> ordered(out),
+        sorted_scan(init) ==> sorted_scan(out) && out.no_duplicates(),
 {
     reveal(refines);
     lemma_initial_list(cells, init);
@@ -141,6 +144,7 @@ pub proof fn lemma_compact_final(cells: Seq<u64>, init: Seq<u64>, out: Seq<u64>)
         assert(max_res_le(init, y.resolution as int));
     }
     if antichain_set(cells) { lemma_antichain_no_dup(out); }
+    if sorted_scan(init) { lemma_sorted_scan_no_dup(out); }
 }
 
 
